@@ -88,7 +88,8 @@ func alphabet(t *rapid.T) []rune {
 	n := rapid.IntRange(4, 13).Draw(t, "alphabet")
 	rs := []rune{0xfffd}
 	seen := map[rune]bool{0xfffd: true}
-	pool := []rune{'a', 'b', 'c', 'd', 'e', 'f', 'x', 0xe9, 0x3b1, 0x7ff, 0x800, 0x65e5, 0x672c, 0x6708, 0xffff, 0x10000, 0x1f600, 0x10ffff, ' ', 0}
+	pool := []rune{'a', 'b', 'c', 'd', 'e', 'f', 'x', 0xe9, 0x3b1, 0x7ff, 0x800, 0x65e5, 0x672c, 0x6708, 0xffff, 0x10000, 0x1f600, 0x10ffff, ' ', 0,
+		0x7f, 0x80, 0x81, 0xbf, 0xc0, 0xff, 0x100, 0xd7ff, 0xe000, 0xfffe, 'a', 'b', 'c', 0xe9, 0x65e5}
 	for len(rs) < n+1 {
 		r := rapid.SampledFrom(pool).Draw(t, "r")
 		if !seen[r] {
@@ -227,7 +228,36 @@ func Gen(t *rapid.T) Case {
 	if rapid.IntRange(0, 2).Draw(t, "damage") == 0 && len(text) > 0 {
 		for k := rapid.IntRange(1, 3).Draw(t, "ndamage"); k > 0 && len(text) > 0; k-- {
 			i := rapid.IntRange(0, len(text)-1).Draw(t, "di")
-			switch rapid.IntRange(0, 3).Draw(t, "dk") {
+			switch rapid.IntRange(0, 5).Draw(t, "dk") {
+			case 4, 5: // replace one rune by bytes that a sloppy decoder confuses with it
+				var starts []int
+				for j := 0; j < len(text); {
+					r, sz := utf8.DecodeRune(text[j:])
+					if r != utf8.RuneError || sz > 1 {
+						starts = append(starts, j)
+					}
+					j += sz
+				}
+				if len(starts) == 0 {
+					continue
+				}
+				j := starts[i%len(starts)]
+				r, sz := utf8.DecodeRune(text[j:])
+				enc := text[j : j+sz]
+				var conf [][]byte
+				if r < 0x100 {
+					conf = append(conf, []byte{byte(r)}) // the code point as one raw byte
+				}
+				if r < 0x80 {
+					conf = append(conf, []byte{0xc0 | byte(r>>6), 0x80 | byte(r&0x3f)}, []byte{0xe0, 0x80 | byte(r>>6), 0x80 | byte(r&0x3f)}) // overlong forms
+				} else {
+					conf = append(conf, append([]byte(nil), enc[1:]...), append([]byte(nil), enc[:1]...), append([]byte(nil), enc[sz-1:]...), append([]byte(nil), enc[:sz-1]...))
+					if r < 0x800 {
+						conf = append(conf, []byte{0xe0, 0x80 | byte(r>>6), 0x80 | byte(r&0x3f)})
+					}
+				}
+				ins := rapid.SampledFrom(conf).Draw(t, "confusable")
+				text = append(text[:j:j], append(append([]byte(nil), ins...), text[j+sz:]...)...)
 			case 0: // delete a byte (truncates a multi-byte sequence when it hits one)
 				text = append(text[:i:i], text[i+1:]...)
 			case 1:
@@ -267,6 +297,6 @@ func Gen(t *rapid.T) Case {
 		c.Stages = rapid.SliceOfN(rapid.IntRange(1, len(c.Patterns)), 1, 2).Draw(t, "stages")
 	}
 	c.Repl = rapid.OneOf(rapid.Just(""), rapid.Just("*"), rapid.Custom(func(t *rapid.T) string { return str(t, alpha, 0, 3, "repl") })).Draw(t, "repl")
-	c.Mask = rapid.SampledFrom([]rune{'*', 0xe9, 0x65e5, 0x1f600, 'a', 0xfffd}).Draw(t, "mask")
+	c.Mask = rapid.SampledFrom([]rune{'*', 0xe9, 0x65e5, 0x1f600, 'a', 0xfffd, 0x7f, 0x80, 0xff, 0x100, 0x7ff, 0x800, 0xffff, 0x10000}).Draw(t, "mask")
 	return c
 }
